@@ -21,6 +21,8 @@ meta["seed_id"] = sid
 meta["origin"] = "written by a fresh sub-agent that saw only the property text and its own scratch worktree"
 meta["confirmed"] = note or "patch applies to the pinned tree with the fix commits; go build ./... passes; tests of every package importing a touched package pass (no stable_pass test fails); demonstration re-run by hand on clean and patched binaries"
 meta["check_result"] = {"status": status, "detail": detail}
+if os.environ.get("SEED_ROUND"):
+    meta["round"] = int(os.environ["SEED_ROUND"])
 json.dump(meta, open(mp, "w"), indent=1)
 open(mp, "a").write("\n")
 print("stored", dst, status)
